@@ -17,13 +17,13 @@ if ! go build ./... >/dev/null 2>&1; then res true false false "" false false; c
 # existing suite; baseline noise: 3 cert tests need external binaries, some proxy tests are flaky
 fails=$(go test -mod=mod -vet=off -count=1 ./... 2>&1 | grep -E "^--- FAIL" | grep -vE "TestConsulSource|TestVaultSource|TestVaultPKISource|TestGracefulShutdown|TestProxyWSUpstream|TestTCP|TestCustomRoutes" | tr '\n' ' ' | tr '"' "'")
 suite=true; [ -n "$fails" ] && suite=false
-pkg=$(python3 -c "import json;print(json.load(open('$dir/meta.json')).get('demo_pkg_dir','.'))")
+pkg=$(python3 -c "import json;print((json.load(open('$dir/meta.json')).get('demo_pkg_dir','.') or '.').split()[0])")
 run=$(python3 -c "
 import json,re
 m=json.load(open('$dir/meta.json'))
 c=m.get('demo_cmd','')
 r=re.search(r'-run[ =](\S+)',c)
-print(r.group(1) if r else 'TestDemo')")
+print(r.group(1).strip('\'\"') if r else 'TestDemo')")
 demo() { cp "$dir/demo_test.go" "$wt/$pkg/zz_demo_test.go"; go test -mod=mod -vet=off -count=1 -timeout 300s -run "$run" "./$pkg" >/tmp/wt/confirm-$$.log 2>&1; rc=$?; rm -f "$wt/$pkg/zz_demo_test.go"; return $rc; }
 with=false; demo || with=true
 git reset -q --hard HEAD
